@@ -41,12 +41,16 @@ theorem req_fidelity (wire rp : ReqM → ReqM) (hw : StdReqSpec wire) (hr : StdR
     b.method = q.method ∧ b.target = q.target ∧ b.host = q.host ∧ b.body = q.body ∧
     Hdr.values b.hdr k = Hdr.values q.hdr k := by
   have e0 : Hdr.values (proxyFilter q).hdr k = Hdr.values q.hdr k := filter_keeps_others q.hdr hwf k hk
+  have c0 : Hdr.values (proxyFilter q).hdr Hdr.connKey = [] :=
+    filter_removes_hop q.hdr hwf _ ReqPathP.conn_is_hop
+  have c1 : Hdr.values (wire (proxyFilter q)).hdr Hdr.connKey = [] :=
+    hw.drops_hop _ _ c0 ReqPathP.conn_is_hop
   have e1 : Hdr.values (wire (proxyFilter q)).hdr k = Hdr.values q.hdr k := by
-    rw [hw.keeps _ k (by rw [e0]; exact hsent) hk hf, e0]
+    rw [hw.keeps _ k (by rw [e0]; exact hsent) hk hf (ReqPathP.not_mem_connDrops _ c0 k), e0]
   have ea : agentEdit ⟨false, false, []⟩ (wire (proxyFilter q)) = wire (proxyFilter q) := by
     simp only [agentEdit, C09.flags_off_identity]
   have e2 : Hdr.values (rp (wire (proxyFilter q))).hdr k = Hdr.values q.hdr k := by
-    rw [hr.keeps _ k (by rw [e1]; exact hsent) hk hf, e1]
+    rw [hr.keeps _ k (by rw [e1]; exact hsent) hk hf (ReqPathP.not_mem_connDrops _ c1 k), e1]
   simp only [backendSees, ea]
   refine ⟨?_, ?_, ?_, ?_, e2⟩
   · rw [hr.method, hw.method]; rfl
@@ -63,10 +67,12 @@ theorem hop_not_forwarded (wire rp : ReqM → ReqM) (hw : StdReqSpec wire) (hr :
   have e1 : Hdr.values (wire (proxyFilter q)).hdr k = [] := hw.drops_hop _ k e0 hk
   have e2 : Hdr.values (agentEdit cfg (wire (proxyFilter q))).hdr k = [] := by
     simp only [agentEdit, C09.fwd_eq]
-    have e3 : Hdr.values (if cfg.forwardUserID = true then Hdr.set (wire (proxyFilter q)).hdr C09.userKey cfg.user
+    have e3 : Hdr.values (if cfg.forwardUserID = true then
+          Hdr.dropConnOption (Hdr.set (wire (proxyFilter q)).hdr C09.userKey cfg.user) utils_HeaderUserID
         else (wire (proxyFilter q)).hdr) k = [] := by
       split
-      · rw [Hdr.values_set_ne _ _ _ _ hku]; exact e1
+      · apply ConnOpt.values_drop_nil
+        rw [Hdr.values_set_ne _ _ _ _ hku]; exact e1
       · exact e1
     split
     · exact ReqPathP.values_del_nil _ _ _ e3
